@@ -18,8 +18,8 @@ EXTENDS LifecycleMon, TraceKit
 
 CONSTANT Want
 
-VARIABLES l, fails, m, pred, drift, ncase, done
-tvars == <<l, fails, m, pred, drift, ncase, done>>
+VARIABLES l, fails, m, pred, drift, ncase, cnt, done
+tvars == <<l, fails, m, pred, drift, ncase, cnt, done>>
 
 OpOf(r) == [side |-> r.side, op |-> r.op, phase |-> r.phase, res |-> r.res, anc |-> r.anc, tree |-> r.tree]
 KnownEv == {"Begin", "Cmd", "EndpointOp", "Edit", "Roots", "Disk", "State", "End", "CaseAborted", "Infra"}
@@ -61,7 +61,18 @@ Judge(i, r, m0, m1) ==
 
 Drift(r, p) == IF r.ev = "Cmd" /\ r.phase = "return" /\ r.id \in DOMAIN p /\ p[r.id] # r.result THEN 1 ELSE 0
 
-TInit == l = 1 /\ fails = <<>> /\ m = MInit("tws") /\ pred = <<>> /\ drift = 0 /\ ncase = 0 /\ done = FALSE
+\* how often the antecedents of the properties were established by real observations (vacuity control)
+Cnt0 == [halts |-> 0, quiets |-> 0, flushok |-> 0, terms |-> 0, resets |-> 0, pausedobs |-> 0, cycles |-> 0]
+Bump(c, r, m0, m1) ==
+  [halts |-> c.halts + (IF m1.halted /\ ~m0.halted THEN 1 ELSE 0),
+   quiets |-> c.quiets + (IF m1.quiet /\ ~m0.quiet THEN 1 ELSE 0),
+   flushok |-> c.flushok + (IF r.ev = "Cmd" /\ r.phase = "return" /\ r.kind = "flushw" /\ r.result = "ok" THEN 1 ELSE 0),
+   terms |-> c.terms + (IF m1.term /\ ~m0.term THEN 1 ELSE 0),
+   resets |-> c.resets + (IF m1.resetClean /\ ~m0.resetClean THEN 1 ELSE 0),
+   pausedobs |-> c.pausedobs + (IF r.ev = "State" /\ KnownPaused(m0) THEN 1 ELSE 0),
+   cycles |-> c.cycles + (IF m1.cy.ph = "scanned" /\ m0.cy.ph = "scanning" THEN 1 ELSE 0)]
+
+TInit == l = 1 /\ fails = <<>> /\ m = MInit("tws") /\ pred = <<>> /\ drift = 0 /\ ncase = 0 /\ cnt = Cnt0 /\ done = FALSE
 Step == /\ l <= NRec
         /\ LET r == Trace[l]
                m1 == Apply(m, r)
@@ -70,10 +81,13 @@ Step == /\ l <= NRec
               /\ pred' = IF r.ev = "Begin" THEN (IF Has(r.in, "predicted") THEN r.in.predicted ELSE <<>>) ELSE pred
               /\ drift' = drift + Drift(r, pred)
               /\ ncase' = ncase + (IF r.ev = "Begin" THEN 1 ELSE 0)
+              /\ cnt' = Bump(cnt, r, m, m1)
         /\ l' = l + 1 /\ UNCHANGED done
 Finish == /\ l = NRec + 1 /\ ~done
-          /\ WriteResult(l - 1, fails, [stat_drift |-> drift, stat_cases |-> ncase])
-          /\ done' = TRUE /\ UNCHANGED <<l, fails, m, pred, drift, ncase>>
+          /\ WriteResult(l - 1, fails, [stat_drift |-> drift, stat_cases |-> ncase, stat_halts |-> cnt.halts, stat_quiets |-> cnt.quiets,
+                                        stat_flushok |-> cnt.flushok, stat_terms |-> cnt.terms, stat_resets |-> cnt.resets,
+                                        stat_pausedobs |-> cnt.pausedobs, stat_cycles |-> cnt.cycles])
+          /\ done' = TRUE /\ UNCHANGED <<l, fails, m, pred, drift, ncase, cnt>>
 TNext == Step \/ Finish
 TSpec == TInit /\ [][TNext]_tvars
 ====
